@@ -694,6 +694,57 @@ pub open spec fn snap_default() -> Snap {
 """)
 
 
+def add_select(U):
+    """C16 (channel half): the selection function that decides which pending consensus message survives."""
+    F_LIB = "node/components/bft/src/lib.rs"
+    F_MPSC = "node/libs/concurrency/src/sync/prunable_mpsc/mod.rs"
+    U.item(F_MPSC, "enum SelectionFunctionResult", attrs="#[derive(PartialEq, Eq, Structural)]", props=["C16"])
+    U.item(F_IO, "struct ConsensusReq", subs=[("validator::Signed<validator::ConsensusMsg>", "Signed<ConsensusMsg>"), ("oneshot::Sender<()>", "AckSender")], props=["C16"])
+    U.raw("""
+#[verifier::external_body] pub struct AckSender { _p: u8 }
+// ConsensusMsg::label() returns one string literal per message kind; comparing labels is comparing kinds (4 distinct literals, inspected)
+#[verifier::external_body] pub struct Label { _p: u8 }
+pub open spec fn kind_of(m: ConsensusMsg) -> int {
+    match m { ConsensusMsg::V2(ChonkyMsg::LeaderProposal(_)) => 0, ConsensusMsg::V2(ChonkyMsg::ReplicaCommit(_)) => 1,
+              ConsensusMsg::V2(ChonkyMsg::ReplicaNewView(_)) => 2, ConsensusMsg::V2(ChonkyMsg::ReplicaTimeout(_)) => 3 }
+}
+impl Label { pub uninterp spec fn kind(&self) -> int; }
+impl PartialEq for Label { #[verifier::external_body] fn eq(&self, o: &Self) -> (r: bool) { unimplemented!() } }
+impl PartialEqSpecImpl for Label {
+    open spec fn obeys_eq_spec() -> bool { true }
+    open spec fn eq_spec(&self, o: &Self) -> bool { self.kind() == o.kind() }
+}
+impl ConsensusMsg {
+    #[verifier::external_body]
+    pub fn label(&self) -> (r: Label) ensures r.kind() == kind_of(*self) { unimplemented!() }
+    pub open spec fn spec_view_number(&self) -> ViewNumber {
+        match self {
+            ConsensusMsg::V2(ChonkyMsg::LeaderProposal(m)) => m.justification.spec_view().number,
+            ConsensusMsg::V2(ChonkyMsg::ReplicaCommit(m)) => m.view.number,
+            ConsensusMsg::V2(ChonkyMsg::ReplicaNewView(m)) => m.justification.spec_view().number,
+            ConsensusMsg::V2(ChonkyMsg::ReplicaTimeout(m)) => m.view.number,
+        }
+    }
+}
+pub type FromNetworkMessage = ConsensusReq;
+""", label="prelude select", props=["C16"])
+    U.fn(F_CONS2, "impl ChonkyMsg :: fn view_number", wrap="impl ChonkyMsg", ret="r", props=["C16", "C10"],
+         spec="    ensures r == ConsensusMsg::V2(*self).spec_view_number(),      // total: no panic for any (unverified) message\n")
+    U.fn(F_CONS, "impl ConsensusMsg :: fn view_number", wrap="impl ConsensusMsg", ret="r", props=["C16", "C10"],
+         spec="    ensures r == self.spec_view_number(),\n")
+    U.fn(F_LIB, "fn inbound_selection_function", ret="r", props=["C16"], spec="""
+    ensures
+        // messages of different senders or kinds never displace each other
+        (old_req.msg.key != new_req.msg.key || kind_of(old_req.msg.msg) != kind_of(new_req.msg.msg)) ==> r == SelectionFunctionResult::Keep,
+        // same sender and kind: exactly the one with the HIGHER view survives; on a tie the pending one stays (the new one is dropped)
+        (old_req.msg.key == new_req.msg.key && kind_of(old_req.msg.msg) == kind_of(new_req.msg.msg)) ==>
+            r == (if old_req.msg.msg.spec_view_number().0 < new_req.msg.msg.spec_view_number().0 { SelectionFunctionResult::DiscardOld }
+                  else { SelectionFunctionResult::DiscardNew }),
+""")
+    U.fn(F_LIB, "fn inbound_filter_predicate", ret="r", props=["C16"],
+         spec="    ensures r == sig_ok(new_req.msg.msg, new_req.msg.key, new_req.msg.sig),      // dropped only if the signature is invalid\n")
+
+
 def build(repo):
     U = Unit("replica", ["C04"], desc="replica state machine", uses=T.USES + "\nuse std::sync::Arc;")
     U.repo = repo
@@ -720,6 +771,7 @@ def build(repo):
     add_proposal(U)
     add_votes(U)
     add_start(U)
+    add_select(U)
     U.assume("A4: a handler runs on one task and owns &mut self; .await points are sequential calls")
     U.assume("A5: EngineManager::set_state is durable when it returns Ok; what get_state returns is what was last stored")
     U.assume("H-ind: the induction over all histories that turns the per-handler rules into global agreement is not mechanised")
